@@ -26,8 +26,12 @@
 //! named-rule-set case := `M <T|U> <rules> <a>:<b> <op> …` — ONE TypedReteUlEngine (T) / ReteUlEngine (U) whose rules carry explicit
 //!   NAMES (the same name may be registered several times), driven through several calls.  rule =
 //!   `name:prio:noloop:ck:limit:ak:inc:mk` (`when C.<ck> < limit then C.<ak> += inc`, and when mk ≠ `-` the action also sets the
-//!   fact `N<mk>_fired = true`: a marker that appears DURING a cycle); rule names are "N<name>".
-//!   ops: `F` fire_all, `Z` reset_fired_flags, `s<a>:<b>` set_fact C.a / C.b, `k<n>` set_fact `N<n>_fired = true` from outside.
+//!   fact `N<mk>_fired = true`: a marker that appears DURING a cycle; `mk` = `<k>=<code>` sets it to the value with that code);
+//!   rule names are "N<name>".
+//!   ops: `F` fire_all, `Z` reset_fired_flags, `s<a>:<b>` set_fact C.a / C.b, `k<n>` set_fact `N<n>_fired = true` from outside,
+//!   `k<n>=<code>` set_fact `N<n>_fired = <value>`.  Value codes (C07.markerFired): U: 0,1 "true", 2 "false", 3 "", 4 "0", 5 "1",
+//!   6 "TRUE", 7 "True", 8 " true", 9 "true ", 10 "yes", 11 "on", 12 "off", 13 "t", 14 "f", 15 "null"; T: 1..10 String(the same
+//!   strings), 0, 11 Boolean(true), 12 Boolean(false), 13 Integer(1), 14 Integer(0), 15 Null; any other code: the string "v<code>".
 //! obs := `ok tok …`, one token per call: `F<fired, run-length encoded>/<a>/<b>` | `z` | `s` | `k`; `hang`; panic:…
 //!   `M I <rules> - <op> …` — ONE IncrementalEngine with the same NAMED rules (ak / inc / mk unused: no-op actions, facts of type
 //!   C), ops and observation tokens as in the `H` cases (`i<a>:<b>` `u<h>:<a>:<b>` `x<h>` `F` `Z`), names printed as "N<name>".
@@ -290,14 +294,36 @@ fn exec_history(rules: Vec<CRule>, names: Option<Vec<u64>>, ops: Vec<String>) ->
 }
 
 #[derive(Clone)]
-struct NRule { name: u64, r: CRule, mk: Option<u64> }
+struct NRule { name: u64, r: CRule, mk: Option<(u64, u64)> }
+
+const MARK_STRINGS: [&str; 16] = ["true", "true", "false", "", "0", "1", "TRUE", "True", " true", "true ", "yes", "on", "off", "t", "f", "null"];
+fn mark_string(code: u64) -> String {
+    MARK_STRINGS.get(code as usize).map(|s| s.to_string()).unwrap_or_else(|| format!("v{}", code))
+}
+fn mark_typed(code: u64) -> FactValue {
+    match code {
+        0 | 11 => FactValue::Boolean(true),
+        12 => FactValue::Boolean(false),
+        13 => FactValue::Integer(1),
+        14 => FactValue::Integer(0),
+        15 => FactValue::Null,
+        c => FactValue::String(mark_string(c)),
+    }
+}
+/// `<k>` | `<k>=<code>`
+fn parse_mark(s: &str) -> Option<(u64, u64)> {
+    match s.split_once('=') {
+        Some((k, v)) => Some((k.parse().ok()?, v.parse().ok()?)),
+        None => Some((s.parse().ok()?, 0)),
+    }
+}
 
 fn parse_nrules(s: &str) -> Option<Vec<NRule>> {
     if s == "-" { return Some(vec![]); }
     s.split(',').map(|r| {
         let p: Vec<&str> = r.split(':').collect();
         if p.len() != 8 { return None; }
-        Some(NRule { name: p[0].parse().ok()?, mk: opt(p[7])?,
+        Some(NRule { name: p[0].parse().ok()?, mk: if p[7] == "-" { None } else { Some(parse_mark(p[7])?) },
             r: CRule { prio: p[1].parse().ok()?, no_loop: p[2] == "1", ck: p[3] == "1", limit: p[4].parse().ok()?, ak: p[5] == "1", inc: p[6].parse().ok()? } })
     }).collect()
 }
@@ -317,13 +343,13 @@ fn exec_named(kind: String, rules: Vec<NRule>, init: (i64, i64), ops: Vec<String
                     tick(&cnt);
                     let v = f.get(key(ak)).and_then(|v| v.as_integer()).unwrap_or(0);
                     f.set(key(ak), FactValue::Integer(v + inc));
-                    if let Some(k) = mk { f.set(format!("N{}_fired", k), true); }
+                    if let Some((k, v)) = mk { f.set(format!("N{}_fired", k), mark_typed(v)); }
                 }),
                 MapEngine::U(e) => e.add_rule_with_action(format!("N{}", nr.name), node, r.prio, r.no_loop, move |f: &mut HashMap<String, String>| {
                     tick(&cnt);
                     let v: i64 = f.get(key(ak)).and_then(|v| v.parse().ok()).unwrap_or(0);
                     f.insert(key(ak).to_string(), (v + inc).to_string());
-                    if let Some(k) = mk { f.insert(format!("N{}_fired", k), "true".to_string()); }
+                    if let Some((k, v)) = mk { f.insert(format!("N{}_fired", k), mark_string(v)); }
                 }),
             }
         }
@@ -353,11 +379,11 @@ fn exec_named(kind: String, rules: Vec<NRule>, init: (i64, i64), ops: Vec<String
                     Some((a, b)) => { set(&mut e, "C.a", a); set(&mut e, "C.b", b); "s".to_string() }
                     None => return "bad-case".into(),
                 },
-                b'k' => match op[1..].parse::<u64>() {
-                    Ok(n) => {
+                b'k' => match parse_mark(&op[1..]) {
+                    Some((n, v)) => {
                         match &mut e {
-                            MapEngine::T(e) => e.set_fact(format!("N{}_fired", n), true),
-                            MapEngine::U(e) => e.set_fact(format!("N{}_fired", n), "true".to_string()),
+                            MapEngine::T(e) => e.set_fact(format!("N{}_fired", n), mark_typed(v)),
+                            MapEngine::U(e) => e.set_fact(format!("N{}_fired", n), mark_string(v)),
                         }
                         "k".to_string()
                     }
@@ -636,6 +662,50 @@ fn gen_stale(rng: &mut Rng) -> String {
     format!("H {} {}", rules.join(","), ops.join(" "))
 }
 
+/// family "the `<name>_fired` fact holds some OTHER value": one ReteUlEngine / TypedReteUlEngine, 1..2 rule names (the first no-loop
+/// and mostly always true, sometimes registered twice), the marker fact of a name set to a value drawn from a pool — absent, "true",
+/// "false", "", "0", "1", "TRUE", "True", " true", "true ", "yes" (typed engine: the same strings plus Boolean(true/false),
+/// Integer(1/0), Null) — BEFORE the first fire_all, BETWEEN calls, and by a rule's own / another rule's action DURING a cycle; 2..4
+/// fire_all calls, mostly without reset_fired_flags in between.  What each engine reads as "fired" is `C07.markerFired`; an overwrite
+/// with a value that is not read as fired forgets that name's no-loop memory (the oracle treats it as a reset of that name).
+fn gen_marks(rng: &mut Rng) -> String {
+    let kind = *rng.pick(&["U", "U", "U", "T", "T"]);
+    let code = |rng: &mut Rng| -> u64 {
+        if kind == "T" && rng.chance(1, 2) { rng.range(11, 15) } else { rng.range(1, 10) }
+    };
+    let nnames = *rng.pick(&[1u64, 1, 2]);
+    let mut rules = Vec::new();
+    for name in 0..nnames {
+        let copies = if name == 0 && rng.chance(1, 4) { 2 } else { 1 };
+        let nl = name == 0 || rng.chance(1, 2);
+        for _ in 0..copies {
+            let limit = if rng.chance(3, 4) { 1_000_000_000 } else { rng.range(1, 8) as i64 };
+            // a rule without no-loop is never always-true here (no runaway: the point is the marker, not the bound)
+            let limit = if !nl && limit > 100 { rng.range(1, 8) as i64 } else { limit };
+            let mk = match rng.below(6) {
+                0 => format!("{}={}", name, code(rng)),                 // the rule's OWN marker, written by its action
+                1 => format!("{}={}", rng.below(nnames), code(rng)),
+                _ => "-".to_string(),
+            };
+            rules.push(format!("{}:{}:{}:{}:{}:{}:{}:{}", name, *rng.pick(&[0i64, 0, 5, -1, 10]), if nl { 1 } else { 0 }, rng.below(2), limit,
+                rng.below(2), *rng.pick(&[0i64, 1, 1, 2]), mk));
+        }
+    }
+    let fact = |rng: &mut Rng| format!("{}:{}", rng.below(6), rng.below(6));
+    let mut ops: Vec<String> = Vec::new();
+    let init = fact(rng);
+    // before the first call: mostly a marker of the no-loop name 0 (absent otherwise)
+    if rng.chance(3, 4) { ops.push(format!("k{}={}", if rng.chance(3, 4) { 0 } else { rng.below(nnames) }, code(rng))); }
+    ops.push("F".into());
+    for _ in 0..*rng.pick(&[1u64, 1, 2, 2, 3]) {
+        if rng.chance(1, 5) { ops.push("Z".into()); }
+        if rng.chance(1, 4) { ops.push(format!("s{}", fact(rng))); }
+        if rng.chance(1, 3) { ops.push(format!("k{}={}", rng.below(nnames), code(rng))); }
+        ops.push("F".into());
+    }
+    format!("M {} {} {} {}", kind, rules.join(","), init, ops.join(" "))
+}
+
 fn gen(rng: &mut Rng, n: usize, _tier: &str) -> Vec<String> {
     let mut out = Vec::new();
     for i in 0..n {
@@ -645,6 +715,9 @@ fn gen(rng: &mut Rng, n: usize, _tier: &str) -> Vec<String> {
     let mut r2 = Rng::new(rng.next() ^ 0x4e41_4d45_4421);
     for _ in 0..n / 16 { out.push(gen_named(&mut r2)); }
     for _ in 0..n / 32 { out.push(gen_stale(&mut r2)); }
+    // marker-value family: own stream again
+    let mut r3 = Rng::new(r2.next() ^ 0x4d41_524b_5631);
+    for _ in 0..n / 16 { out.push(gen_marks(&mut r3)); }
     out
 }
 
